@@ -213,7 +213,9 @@ StripX(nb) == [i \in 1..Len(nb.X) |-> [fs |-> nb.X[i].fs, su |-> nb.X[i].su, w |
 MergeNB(F, nbs, ks, mode, align0) ==
     LET align == IF align0 = "" THEN nbs[1].align ELSE align0 IN
     IF \E i \in 1..Len(nbs) : ~nbs[i].ok THEN Refused("sub-block refused")
-    ELSE IF \E i \in 1..Len(nbs) : nbs[i].align # align THEN Refused("different alignments")
+    \* a block with a single crossing has no alignment choice of its own and fits any alignment
+    ELSE IF \E i \in 1..Len(nbs) : nbs[i].align # align /\ ~(nbs[i].align = "equal" /\ Len(nbs[i].X) <= 1)
+         THEN Refused("different alignments")
     ELSE Create(F,
                 FoldSeq(LAMBDA nb, acc : UnionSeq(acc, nb.design), <<>>, Reverse(nbs)),
                 FlatSeq([i \in 1..Len(nbs) |-> StripX(nbs[i])]),
